@@ -8,6 +8,8 @@ package main
 import (
 	"fmt"
 
+	"istio.io/istio/pilot/pkg/features"
+	"istio.io/istio/pkg/security"
 	"verifharness/internal/quiet"
 	"verifharness/internal/vh"
 )
@@ -18,23 +20,24 @@ func main() {
 	vh.Main(vh.Prop{
 		ID:    "C11",
 		Level: "exploration",
-		Rule: "PRNG worlds (4 namespaces incl. a prefix pair, Kubernetes TLS/generic/CA-only secrets whose private keys carry a marker naming the secret, ConfigMaps, Istio Gateways with credentialName in " +
-			"bare / kubernetes:// / kubernetes-gateway:// same- and cross-namespace / malformed forms, Gateway-API Gateways, ReferenceGrants incl. decoys, a SubjectAccessReview table allow/deny/error " +
-			"answered by a reactor on the fake clientset) on a FakeDiscoveryServer with a harness authenticator. identity stratum: per world 40 streams with PRNG credential (plaintext, TLS with 1-3 identities, " +
-			"hostile SPIFFE strings, other trust domain, control-plane identities, authenticator rejection) x PRNG claims (NAMESPACE / SERVICE_ACCOUNT metadata present, empty or absent, node id and DNS domain naming other namespaces); " +
-			"oracle: a TLS stream is served only if a credential identity proves the claimed namespace and service account, a refused stream received no response of any type, and namespace-private CDS clusters reveal only proven namespaces. " +
+		Rule: "PRNG worlds on a FakeDiscoveryServer (real credentials controller, gateway controller, XDS cache; harness authenticator; SubjectAccessReview reactor answering allow/deny/error from a table): " +
+			"4 namespaces incl. a prefix pair (team-a/team-ab), Kubernetes TLS/generic/CA-only secrets with real ECDSA key pairs (some with junk PEM), ConfigMaps, 2-5 Istio Gateways with credentialName in " +
+			"bare / kubernetes:// / kubernetes-gateway:// same- and cross-namespace / three-segment / builtin / configmap forms, Gateway-API Gateways with certificateRefs (every second world), ReferenceGrants aimed at real cross-namespace references plus decoys. " +
+			"identity stratum: per world 40 streams with PRNG credential (plaintext, TLS with 1-3 identities, hostile SPIFFE strings, other trust domain, control-plane identities, prefix namespaces, authenticator rejection) x PRNG claims " +
+			"(NAMESPACE / SERVICE_ACCOUNT metadata present, empty or absent, node id and DNS domain naming other namespaces), first message barrier / CDS / SDS; oracle: a TLS stream is served only if a credential identity proves the claimed namespace " +
+			"and service account, a refused stream received no response of any type, and namespace-private CDS clusters reveal only namespaces the credential proves. " +
 			"ordering stratum: per world 8 plans of 5-7 proxies (authorised router, unauthorised router of the same namespace, router of another namespace, sidecar, unauthenticated, random, gateway-api workload) x 1-3 SDS requests of 4-12 names " +
-			"from a shared pool (SotW and delta) plus forced pushes, executed in two PRNG orders (privileged first / last) on the shared cache, second run on a warm or cold cache; every resource of every response is scanned for private-key markers " +
-			"and each released key is judged by the entitlement function written from the property; per-proxy answers of both orders must agree. " +
-			"Non-trivial: an ordering plan in which at least one key was released, at least one existing keyed secret was refused and two proxies asked for a common name; an identity case with at least one served and one refused TLS stream. Distinct by hash of world+plan.",
+			"from a shared pool (SotW and delta) plus CDS requests and forced pushes, executed in two PRNG orders (privileged first / last in 2 of 3 plans) on fresh connections against the shared cache, second run on a warm or cold cache; " +
+			"every resource of every response of every type is scanned for the private keys of the world and each released key is judged by the entitlement function written from the property; per-proxy answers of both orders must agree. " +
+			"Non-trivial: an ordering plan in which at least one key was released, at least one name designating an existing keyed secret was refused and two proxies asked for a common name; an identity case with at least one served and one refused TLS stream. Distinct by hash of world+plan.",
 		Assumptions: []string{
 			"trusted base: the harness authenticator stands for istiod's certificate/JWT authenticators (the credential list is taken as proven); the Kubernetes fake clientset, informers and the SubjectAccessReview reactor",
-			"a private key is recognised by the marker embedded in every key of the world (raw byte scan of every resource of every type, so private_key, private key providers and any other carrier are covered)",
+			"a private key is recognised by a needle (first base64 line of its PEM body) searched in the raw bytes of every resource of every type, so private_key, private key providers and any other carrier are covered; envoy Secrets are also inspected structurally and key material that matches no needle makes the case inconclusive",
 			"claimed namespace = NAMESPACE metadata, else the namespace label of the node id DNS domain; the namespace-private-cluster witness checks the effect independently of this reading",
 			"entitlement via gateway references is computed from the generated Gateway / Gateway-API / ReferenceGrant objects; for Gateway-API gateways the reference ignores the service-account and service-membership conditions (it only allows more, never less)",
 			"answers are compared as the union over a run of what each proxy received per name, which the xDS subscription rules make independent of request order",
 		},
-		Anchors: []string{"pilot/pkg/xds/auth.go", "pilot/pkg/xds/sds.go", "pilot/pkg/model/credentials/resource.go", "pilot/pkg/credentials/kube/secrets.go"},
+		Anchors:       []string{"pilot/pkg/xds/auth.go", "pilot/pkg/xds/sds.go", "pilot/pkg/model/credentials/resource.go", "pilot/pkg/credentials/kube/secrets.go"},
 		MinNontrivial: func(t string) int { return map[string]int{"quick": 120, "thorough": 3000}[t] },
 		Batches:       func(t string) int { return map[string]int{"quick": 5, "thorough": 8}[t] },
 		Parallel:      func(t string) int { return map[string]int{"quick": 5, "thorough": 8}[t] },
@@ -46,6 +49,11 @@ func main() {
 
 func run(c *vh.Ctx) {
 	quiet.Logs("error")
+	if !features.EnableXDSIdentityCheck || !features.XDSAuth || security.AuthPlaintext {
+		// the property is conditional on identity checking being on
+		c.Case("precondition", func() { vh.Abort("identity checking is switched off by the environment") })
+		return
+	}
 	nWorlds := c.N(25, 625)
 	for wi := 0; wi < nWorlds; wi++ {
 		if !c.Mine(wi) {
